@@ -574,9 +574,25 @@ def r17_8(ctx):
                     alts = b.var_def_terms(v[2]) or [v]
                 elif v is not None and v[0] == "phi" and isinstance(v[1], tuple):
                     alts = list(v[1])
+                closure_states = None
+                if v is not None and v[0] == "closure" and ctx.facts.has_body(v[1]):
+                    # send_if_modified(|state| ..): the states the closure can store are the ones it constructs
+                    cb = ctx.facts.body(v[1])
+                    closure_states = set()
+                    for _bi, _si, st_ in cb.assigns():
+                        for x in mir.walk(cb.term_rvalue(st_["rv"])):
+                            if x[0] == "agg" and x[1].endswith("PeerConnectionState"):
+                                closure_states.add(x[2])
+                    for _bi, t_, _p in cb.calls():
+                        for a_ in t_["a"]:
+                            for x in mir.walk(cb.term_operand(a_)):
+                                if x[0] == "agg" and x[1].endswith("PeerConnectionState"):
+                                    closure_states.add(x[2])
                 states = {x[2] for a in alts for x in mir.walk(a) if x[0] == "agg" and x[1].endswith("PeerConnectionState")}
                 # a value that is not (a choice of) literal states - a mapping, a parameter - may be Closed as well
                 literal = bool(alts) and all(a[0] == "agg" and a[1].endswith("PeerConnectionState") for a in alts)
+                if closure_states is not None:
+                    states, literal = closure_states, True
                 if "Closed" in states or not literal:
                     sites.append((bi, states, literal))
         if not sites:
@@ -600,5 +616,79 @@ def r17_8(ctx):
     return r
 
 
+def _publishes_peer_state(ctx, b, depth=0):
+    """blocks of b that publish the connection state: a watch send on `peer_state`, or a call of a crate function
+    every path through which publishes it"""
+    out = set()
+    for bi, t, p in b.calls():
+        if not p or bi in b.cleanup:
+            continue
+        if "watch::Sender" in p and p.split("::")[-1] in ("send", "send_replace", "send_if_modified", "send_modify") and t["a"] and \
+                mir.has_field(b.term_operand(t["a"][0]), "peer_state"):
+            out.add(bi)
+        elif depth < 2 and ctx.facts.has_body(p) and p.startswith("peer_connection::") and not p.endswith("}"):
+            cb = ctx.facts.body(p)
+            inner = _publishes_peer_state(ctx, cb, depth + 1)
+            rets = [i for i, blk in enumerate(cb.blocks) if blk["t"]["k"] == "ret" and i not in cb.cleanup]
+            if inner and rets and all(core.must_pass(cb, rt, inner) for rt in rets):
+                out.add(bi)
+    return out
+
+
+def r17_9(ctx):
+    """'a lower layer (DTLS, SCTP) fails or is closed by the peer => the connection reports a terminal state and a
+    disconnect reason'. While connected, the monitoring task selects over the transport-loops future (what start_dtls
+    returned: DTLS, SCTP and RTCP runners), ICE state changes, the DTLS state and the grace timer. When the peer aborts
+    or shuts down the SCTP association, ICE and DTLS stay up: the ONLY branch that fires is the completion of the
+    transport loops. That branch must publish a connection state before the function returns - otherwise the
+    application keeps seeing Connected for ever."""
+    r = RuleResult("R17.9", "K4", "when the transport loops end on their own the monitoring task publishes a connection state before it returns")
+    n = 0
+    for fn in ("peer_connection::handle_connected_state::{closure#0}", "peer_connection::handle_connected_state_no_dtls::{closure#0}"):
+        b = ctx.body(fn)
+        r.scope.append(fn)
+        pubs = _publishes_peer_state(ctx, b)
+        rets = [i for i, blk in enumerate(b.blocks) if blk["t"]["k"] == "ret" and i not in b.cleanup]
+        for sb in range(len(b.blocks)):
+            if sb in b.cleanup or b.blocks[sb]["t"]["k"] != "switch":
+                continue
+            term, outs = b.switch_info(sb)
+            if term[0] != "discr" or not term[2].endswith("__tokio_select_util::Out"):
+                continue
+            cl = [x for x in mir.walk(term) if x[0] == "closure"]
+            if not cl:
+                continue
+            # which branch of this select! is the transport-loops future (the value start_dtls returned)?
+            k = None
+            for o in cl[0][2]:
+                if o[0] == "tuple":
+                    for i, el in enumerate(o[1]):
+                        if mir.has(el, lambda x: x[0] == "call" and x[1].endswith("PeerConnection::start_dtls")):
+                            k = i
+            if k is None:
+                continue
+            tgt = [t for t, _, m in outs if m == "_%d" % k]
+            if not tgt:
+                raise core.CheckerError("R17.9: select at %s has no arm _%d" % (b.where(sb), k))
+            n += 1
+            bad = None
+            # nobody to report to once the connection object is gone: the `inner_weak.upgrade()` None edges are fine
+            gone = set(core.guard_edges(b, lambda term, meaning, *_: term[0] == "discr" and meaning == "None" and
+                                        mir.has(term[1], lambda x: x[0] == "call" and x[1].endswith("Weak::<T, A>::upgrade"))))
+            for rt in rets:
+                q = b.path_to(tgt, rt, cut_blocks=pubs, cut_edges=gone)
+                if q is not None:
+                    bad = q
+                    break
+            if bad is None:
+                r.ok({"select": b.where(sb), "arm": "_%d (transport loops ended)" % k, "then": "a peer_state publication on every path to the return"})
+            else:
+                r.violate(fn, "loops-ended:no-state", b.where(tgt[0]),
+                          "when the transport loops end by themselves (peer SCTP ABORT / SHUTDOWN, DTLS runner gone) the function can return "
+                          "without publishing any connection state: the application keeps seeing Connected", core.describe_path(b, bad))
+    r.need("select! statements that watch the transport loops", n, 3)
+    return r
+
+
 def run(ctx):
-    return [r17_1(ctx), r17_2(ctx), r17_3(ctx), r17_4(ctx), r17_5(ctx), r17_6(ctx), r17_7(ctx), r17_8(ctx)]
+    return [r17_1(ctx), r17_2(ctx), r17_3(ctx), r17_4(ctx), r17_5(ctx), r17_6(ctx), r17_7(ctx), r17_8(ctx), r17_9(ctx)]
